@@ -889,3 +889,10 @@ m('c07-with-prec-scale-raised-when-dropping', ['C07'], 'with_prec:scale-bookkeep
 m('c07-with-prec-padding-keeps-scale', ['C07'], 'with_prec:scale-bookkeeping', [
   ('src/lib.rs', "                    int_val: &self.int_val * ten_to_the(diff),\n                    scale: self.scale + diff as i64,", "                    int_val: &self.int_val * ten_to_the(diff),\n                    scale: self.scale,")],
   'zeros appended without raising the scale: value multiplied by 10^diff')
+# ---- C17 JSON grammar
+m('c17-zero-padded-again', ['C17'], 'format_full_scale:zero-is-not-padded', [
+  ('src/impl_fmt.rs', """        if this.sign != Sign::NoSign {
+            exp = (this.scale as i128).neg();
+        }
+""", "        exp = (this.scale as i128).neg();\n")],
+  'the repaired defect re-introduced: 0e1 prints as "00"')
